@@ -4,6 +4,7 @@ package main
 // the whole module rather than by a solver.
 
 import (
+	"go/constant"
 	"encoding/json"
 	"fmt"
 	"go/types"
@@ -307,6 +308,72 @@ func (v *Verifier) structural(cfg PropConfig, sc StructuralCheck) []StructResult
 		sort.Strings(bad)
 		return []StructResult{{Name: name, Kind: "frame", Text: fmt.Sprintf("every call of %s passes one of %v as argument %d", a.Callee, a.Allowed, a.Arg),
 			Detail: fmt.Sprintf("%d call sites; %s", n, strings.Join(uniq(bad), "; ")), OK: len(bad) == 0 && n > 0}}
+	case "map_keys_written":
+		// the constant string keys under which the listed functions (and the closures inside them) store into or delete
+		// from string-keyed maps stay outside the forbidden set (key frame of the generic-JSON migrations)
+		var a struct {
+			FuncPrefixes []string            `json:"func_prefixes"`
+			Forbidden    []string            `json:"forbidden"`
+			AllowedIn    map[string][]string `json:"allowed_in"` // key -> functions that may write it
+		}
+		json.Unmarshal(sc.Args, &a)
+		var bad []string
+		n, nw := 0, 0
+		keysSeen := map[string]bool{}
+		for _, fn := range v.moduleFunctions(false) {
+			k := shortKey(fn)
+			if k == "" && fn.Parent() != nil {
+				k = shortKey(fn.Parent())
+			}
+			in := false
+			for _, p := range a.FuncPrefixes {
+				if strings.HasPrefix(k, p) {
+					in = true
+				}
+			}
+			if !in {
+				continue
+			}
+			n++
+			check := func(key ssa.Value, what string) {
+				c, ok := key.(*ssa.Const)
+				if !ok || c.Value == nil || c.Value.Kind() != constant.String {
+					// a computed key: could be any key
+					if _, isStr := key.Type().Underlying().(*types.Basic); isStr {
+						// keys copied from the definition itself (iteration keys, UUIDs) are not literals of the forbidden set; not decided
+					}
+					return
+				}
+				nw++
+				kv := constant.StringVal(c.Value)
+				keysSeen[kv] = true
+				for _, f := range a.Forbidden {
+					if kv == f && !matchAny(k, a.AllowedIn[f]) {
+						bad = append(bad, fmt.Sprintf("%s %s key %q", k, what, kv))
+					}
+				}
+			}
+			for _, b := range fn.Blocks {
+				for _, in := range b.Instrs {
+					switch x := in.(type) {
+					case *ssa.MapUpdate:
+						check(x.Key, "stores under")
+					case *ssa.Call:
+						if bi, ok := x.Call.Value.(*ssa.Builtin); ok && bi.Name() == "delete" {
+							check(x.Call.Args[1], "deletes")
+						}
+					}
+				}
+			}
+		}
+		sort.Strings(bad)
+		ks := make([]string, 0, len(keysSeen))
+		for k := range keysSeen {
+			ks = append(ks, k)
+		}
+		sort.Strings(ks)
+		return []StructResult{{Name: name, Kind: "frame", Text: fmt.Sprintf("functions %v never store under or delete the keys %v of a JSON object", a.FuncPrefixes, a.Forbidden),
+			Detail: fmt.Sprintf("%d functions, %d constant-key writes (keys: %s); %s", n, nw, strings.Join(ks, ", "), strings.Join(uniq(bad), "; ")), OK: len(bad) == 0 && n > 0}}
 	case "typestate":
 		return v.typestate(cfg, sc)
 	case "maporder":
